@@ -165,3 +165,11 @@ Theorem C14_agrees_with_objects_model_partial : forall cd fl m path h rs tok,
         (run m path (Resp h)).
 Proof. exact agrees_with_objects_model. Qed.
 Print Assumptions C14_agrees_with_objects_model_partial.
+
+(** The oracle's specification verdict is [spec_ok], except on documents in which one property is
+    reported twice for one resource with a success and a non-success status ([ambiguous]): there
+    the statement does not say which report counts and either outcome is accepted. *)
+Theorem C14_relaxed_verdict : forall m path s o,
+  ambiguous s = false -> spec_ok_relaxed m path s o = spec_ok m path s o.
+Proof. exact spec_ok_relaxed_unambiguous. Qed.
+Print Assumptions C14_relaxed_verdict.
